@@ -50,6 +50,12 @@ def write_overlay():
             rel = os.path.relpath(src, root)
             repl[os.path.join(REPO, rel)] = src
     os.makedirs(BUILD, exist_ok=True)
+    # overlay files and instrumented pool copies of scratch trees that are long gone (several checks may run against one
+    # scratch tree at the same time, so nothing is removed when a run ends)
+    for f in os.listdir(BUILD):
+        if (f.startswith("overlay-") or f.startswith("gen-")) and time.time() - os.path.getmtime(os.path.join(BUILD, f)) > 6 * 3600:
+            fp = os.path.join(BUILD, f)
+            shutil.rmtree(fp, ignore_errors=True) if os.path.isdir(fp) else os.remove(fp)
     inst = instrument_pool()
     if inst:
         repl[os.path.join(REPO, "pkg", "pool", "lite_pool.go")] = inst
@@ -511,13 +517,6 @@ def main():
         log("failed obligation:", n, w)
     if not os.environ.get("VERIF_KEEP"):
         shutil.rmtree(work, ignore_errors=True)
-    if REPO != "/repo":  # a scratch tree: its overlay file and instrumented pool copy are of no further use
-        h = hashlib.sha1(REPO.encode()).hexdigest()[:8]
-        try:
-            os.remove(os.path.join(BUILD, "overlay-%s.json" % h))
-        except OSError:
-            pass
-        shutil.rmtree(os.path.join(BUILD, "gen-" + h), ignore_errors=True)
     sys.exit(1 if violations else 0)
 
 
